@@ -318,6 +318,10 @@ impl Property for C02 {
                     v.evaluated = true;
                     v.violate("internal:learnt-unsound", format!("solve #{i}: {e}"));
                 }
+                if let Some(e) = crate::internal::trail_justified(d) {
+                    v.evaluated = true;
+                    v.violate("internal:unjustified-assignment", format!("solve #{i}: {e}"));
+                }
             }
             match o.verdict() {
                 None => v.aborted_other = true,
@@ -742,7 +746,8 @@ impl Property for C05 {
         }
         let params = swarm(seed, base, tier);
         let mut sc = std_scenario(seed, &params, None);
-        maybe_forest(seed, &mut sc, &params, 24, tier);
+        maybe_forest(seed, &mut sc, &params, 40, tier);
+        sc.capture_state = true;
         vec![sc]
     }
     fn judge(&self, sc: &Scenario) -> Verdict {
@@ -761,6 +766,14 @@ impl Property for C05 {
                     let extra: Vec<u32> = set.difference(&reach).copied().collect();
                     if !extra.is_empty() {
                         v.violate("extraneous", format!("solve #{i} returned {s:?}; not needed: {extra:?}"));
+                    }
+                    // every propagated assignment on the final trail has a reason that really forces it (a positive
+                    // literal left behind by backtracking is exactly how an unneeded solvable gets installed)
+                    if let Some(Some(d)) = rec.dumps.get(i) {
+                        *v.probes.entry("internal_state_checked").or_insert(0) += 1;
+                        if let Some(e) = crate::internal::trail_justified(d) {
+                            v.violate("internal:unjustified-assignment", format!("solve #{i}: {e}"));
+                        }
                     }
                 }
                 o if o.is_crash() => v.aborted_other = true,
